@@ -100,7 +100,7 @@ func orDash(s string) string {
 }
 
 // clone <aid> <tid> <val>: dst = Clone(src); then probe every mutable location for aliasing
-func opClone(p []string, byValue bool) string {
+func opClone(p []string, byValue bool, prefill bool) string {
 	a := atlasByID(p[0])
 	id, _ := strconv.Atoi(p[1])
 	t := typeByID[id]
@@ -111,6 +111,10 @@ func opClone(p []string, byValue bool) string {
 	src := reflect.New(t)
 	src.Elem().Set(rv)
 	dst := reflect.New(t)
+	if prefill {
+		// `dst := src; Clone(src, &dst)`: the destination starts out sharing everything with the source
+		dst.Elem().Set(src.Elem())
+	}
 	before := dumpValue(src.Elem())
 	// the source is handed over by pointer or by value (a by-value array / struct still shares whatever it references)
 	srcArg := func() interface{} {
@@ -140,6 +144,9 @@ func opClone(p []string, byValue bool) string {
 	}
 	if oracle == "ok" {
 		dst2 := reflect.New(t)
+		if prefill {
+			dst2.Elem().Set(src.Elem())
+		}
 		if e, pn := safely(func() error { return refmt.CloneAtlased(srcArg(), dst2.Interface(), a.atl) }); e == nil && !pn {
 			want := dumpValue(dst2.Elem())
 			mutateAll(src.Elem(), map[uintptr]bool{})
